@@ -7238,6 +7238,8 @@ func syncOpsOf(f *ssa.Function) []syncOp {
 
 // consistentPath is findPath with one refinement: conditions tested by more than one If of the function are
 // given one truth value along the path (re-set when the path re-enters the block that computes the condition).
+var cpExhausted int // searches given up by consistentPath (reported by the rules that use it)
+
 func consistentPath(f *ssa.Function, from ssa.Instruction, barrier, target func(ssa.Instruction) bool) []ssa.Instruction {
 	if len(f.Blocks) == 0 {
 		return nil
@@ -7292,6 +7294,7 @@ func consistentPath(f *ssa.Function, from ssa.Instruction, barrier, target func(
 		stack = stack[:len(stack)-1]
 		steps++
 		if steps > 200000 {
+			cpExhausted++
 			return nil
 		}
 		blocked := false
@@ -7485,6 +7488,9 @@ func ruleNoUnlockOfUnheld(r *Run) {
 		}
 	}
 	r.check(n >= 100, "repo:releases", fmt.Sprintf("%d decided, %d in function literals not decided", n, skipped), "too few: rule needs review", "-")
+	if cpExhausted > 0 {
+		r.undecided("repo:releases:path-search", fmt.Sprintf("%d path searches were given up at the step limit", cpExhausted))
+	}
 }
 
 // ---------------------------------------------------------------------------------------------
